@@ -28,7 +28,7 @@ structure St (K V : Type) where
   hit : Nat
   miss : Nat
   load : Nat
-  deriving Repr
+  deriving Repr, DecidableEq
 
 /-- what the key pipeline did for a call -/
 inductive KeyIn (K : Type)
@@ -190,7 +190,16 @@ def callCached (cfg : Cfg) (s : St K V) (ci : CallIn K V) : St K V × Out V :=
 def callNo (cfg : Cfg) (s : St K V) (ci : CallIn K V) : St K V × Out V :=
   match ci.key with
   | .genError e => keyFail cfg s ci.fn e
-  | .unhashable e => keyFail cfg s ci.fn e
+  | .unhashable e =>
+    -- safe.py: the bare `except:` evaluates the function and then falls through to the
+    -- `# purge cache` block (entries handed in with the cache are dumped and cleared)
+    if cfg.safe then
+      match ci.fn with
+      | .ok v =>
+        let c3 := if s.c.archived then s.c.dumpAll else s.c
+        ({ s with c := c3.clearMem, miss := s.miss + 1 }, .ret v 1)
+      | .error e' => (s, .raised e' 1)
+    else (s, .raised e 0)
   | .ok k =>
     let c1 := s.c.preload k
     match get? c1.mem k with
